@@ -158,7 +158,7 @@ func (r *seqRun) step() bool {
 			return w.SetColl(m, r.anyName())
 		}
 		key := r.anyKey(name)
-		val, _ := w.U.NewValue(w.rng, r.cfg.big, w.lastRoot)
+		val, _ := w.U.NewValue(w.rng, r.cfg.big, w.someRoot())
 		switch op {
 		case "setrand":
 			return w.SetKV(m, name, key, val, 0, true, nil)
@@ -225,7 +225,14 @@ func (r *seqRun) step() bool {
 		if !w.Flush(m, nil) {
 			return false
 		}
-		w.Decode(m.File)
+		// the decoder looks right after a flush only when its own properties
+		// are being checked (the first mismatch of a history ends it); every
+		// history is decoded at its end in any case
+		if w.prop == "C14" || w.prop == "C13" || w.prop == "C17" || w.prop == "C03" || w.prop == "" {
+			w.Decode(m.File)
+		} else {
+			w.noteRoots(m.File)
+		}
 		return true
 	case "collwrite":
 		name, ok := r.existingName(m)
